@@ -21,7 +21,7 @@ pub static DEF: PropDef = PropDef {
     level: "exploration",
     engine: "query",
     rule: "one run = one real QueryNode over 3..6 chunks in distinct eras (so that different time windows select different chunk sets) and 2..4 concurrent query tasks (projections, aggregates, GROUP BY; windows covering one era, several eras, or none), each task issuing 1..3 queries; scheduling points: every object-store request of the node (catalog and chunk reads) and the pause point between per-query table registration and statement planning; each concurrent answer must equal the same SQL evaluated on a MemTable of all rows; distinct = distinct grant sequence; non-trivial = completed AND two queries with different chunk sets were in flight together",
-    quick_runs: 600,
+    quick_runs: 1500,
     thorough_runs: 15_000,
     run_cap_ms: 120_000,
     scen,
